@@ -319,3 +319,57 @@ def mon_c08(w, pre, res, queues):
                        'kept' if pre.apps.get(a.name, {}).get('server') ==
                        a.server else w.put_site(a.name),
                        {'app': w.tmpl[a.name], 'server': a.server})
+
+
+# ------------------------------------------------------------------ C02 -----
+def oracle_fits(w, app, label):
+    """Leaf scan, independent of every aggregate: is there an up server of the
+    probe's partition with the traits, lifetime, room in every dimension and
+    affinity head-room at every level, and a free identity if needed?"""
+    from mc.vclock import BASE
+    cell = w.cell
+    if app.identity_group:
+        grp = cell.identity_groups.get(app.identity_group)
+        count = grp.count if grp is not None else 0
+        held = {a.identity for a in cell.apps.values()
+                if a.identity_group == app.identity_group
+                and a.identity is not None}
+        if not set(range(count)) - held:
+            return False, 'no free identity'
+    need_traits = app._traits          # dedicated allocation has no traits
+    for sname, srv in cell.members().items():
+        if srv.state is not State.up:
+            continue
+        if label not in srv.labels:
+            continue
+        if (srv.traits.self_traits & need_traits) != need_traits:
+            continue
+        if app.lease and not (BASE + CLOCK.L + app.lease < srv.valid_until):
+            continue
+        used = np.zeros(S.DIMENSION_COUNT)
+        for a in srv.apps.values():
+            used = used + a.demand
+        if np.any(app.demand > srv.init_capacity - used):
+            continue
+        node = srv
+        ok = True
+        while node is not None:
+            c = sum(1 for a in _apps_under(node)
+                    if a.affinity.name == app.affinity.name)
+            if not c < app.affinity.limits[node.level]:
+                ok = False
+                break
+            node = node.parent
+        if ok:
+            return True, sname
+    return False, None
+
+
+def c02_site(w, app):
+    """Why was a fitting probe missed?  Distinguish the feasibility tracker
+    (another pending instance of the same shape) from tree pruning."""
+    shape = app.shape()[0]
+    for a in w.cell.apps.values():
+        if a is not app and not a.server and a.shape()[0] == shape:
+            return 'same-shape-pending'
+    return 'tree-search'
